@@ -7,4 +7,6 @@ const (
 	zzOnly         = ""
 	zzLoopBound    = 6
 	zzLoopBoundGen = 2
+	zzMaxTemplate  = 4
+	zzMaxCallArgs  = 2
 )
